@@ -63,7 +63,7 @@ def type_and_defaults(draw, depth=0, allow_union_str=False, argparse_only=False,
         if "int_literal" in exclude or draw(st.booleans()):
             vals = draw(st.lists(st.sampled_from(STR_WORDS), min_size=2 if "single_literal" in exclude else 1, max_size=3, unique=True))
             return norm_type("Literal[%s]" % ", ".join(repr(v) for v in vals)), st.sampled_from(vals)
-        vals = draw(st.lists(st.integers(0, 9), min_size=2, max_size=3, unique=True))
+        vals = draw(st.lists(st.integers(-3, 9), min_size=2, max_size=3, unique=True))
         return norm_type("Literal[%s]" % ", ".join(map(str, vals))), st.sampled_from(vals)
     if k == "Optional":
         inner, dflt = draw(type_and_defaults(depth=depth + 1, allow_union_str=allow_union_str, argparse_only=argparse_only, exclude=exclude))
@@ -210,8 +210,15 @@ def m_empty_str(draw, ir):
 
 
 def m_str_with_quote(draw, ir):
+    """The quote character the renderers themselves use around string defaults."""
     p = _ensure_param(draw, ir, "str")
-    p["default"] = draw(st.sampled_from(("it's", 'say "hi"')))
+    p["default"] = draw(st.sampled_from(('say "hi"', 'a "b.c" d', 'it\'s "so"')))
+
+
+def m_str_with_squote(draw, ir):
+    """The other quote character (and a full stop after it): must survive - nothing needs escaping."""
+    p = _ensure_param(draw, ir, "str")
+    p["default"] = draw(st.sampled_from(("it's", "it's v2.x only", "don't. stop")))
 
 
 def m_union_with_str(draw, ir):
@@ -394,7 +401,7 @@ def m_bool_false(draw, ir):
 
 def m_int_literal(draw, ir):
     p = _ensure_param(draw, ir)
-    vals = draw(st.lists(st.integers(0, 9), min_size=2, max_size=3, unique=True))
+    vals = draw(st.lists(st.integers(-3, 9), min_size=2, max_size=3, unique=True))
     p["typ"] = norm_type("Literal[%s]" % ", ".join(map(str, vals)))
     if "default" in p or draw(st.booleans()):
         p["default"] = draw(st.sampled_from(vals))
@@ -425,8 +432,8 @@ def m_spaced_literal(draw, ir):
 
 def m_single_literal(draw, ir):
     p = _ensure_param(draw, ir)
-    v = draw(st.sampled_from(STR_WORDS))
-    p["typ"] = "Literal[%r]" % v
+    v = draw(st.one_of(st.sampled_from(STR_WORDS), st.sampled_from(STR_WORDS), st.integers(0, 9), st.sampled_from((0.5, 2.5))))
+    p["typ"] = "Literal[%r]" % (v,)
     if "default" in p or draw(st.booleans()):
         p["default"] = v
 
@@ -587,8 +594,10 @@ def param_tags(p, prev_has_default=False):
                 t.add("str_with_dot")
             if d == "":
                 t.add("empty_str")
-            if "'" in d or '"' in d:
+            if '"' in d:
                 t.add("str_with_quote")
+            if "'" in d:
+                t.add("str_with_squote")
             if " " in d:
                 t.add("str_with_space")
             if typ is not None and typ != "str":
